@@ -113,7 +113,7 @@ pub fn run(run: &Run) {
         |i| json!({"op": "c14.fq", "a": jn(&fqs[i as usize])}),
     );
     // Fq2
-    let base = fq2_alpha(run.tier.pick(14, 40), run.seed);
+    let base = fq2_alpha(run.tier.pick(14, 100), run.seed);
     // a fixed non-residue of Fq2
     let mut nu = F2 { a: n(1), b: n(1) };
     while nu.is_square() {
@@ -170,8 +170,19 @@ pub fn run(run: &Run) {
         },
         |i| json!({"op": "c14.fq2", "x": {"re": jn(&xs[i as usize].a), "im": jn(&xs[i as usize].b)}}),
     );
+    // small-scope complete: EVERY x = a + b u with a, b below the bound
+    let ns: u64 = run.tier.pick(48, 384);
+    run.grid(
+        Spec { name: "c14.Fq2.sqrt.every-small", n: ns * ns, classes: &["square", "non-residue"], required: &["square", "non-residue"] },
+        |i| {
+            let x = F2 { a: n(i / ns), b: n(i % ns) };
+            fq2_case(&x)?;
+            Ok(Tally::new(1, i > 0, if x.is_square() { 1 } else { 2 }))
+        },
+        |i| json!({"op": "c14.fq2", "x": {"re": jn(&n(i / ns)), "im": jn(&n(i % ns))}}),
+    );
     // every small x as a compressed G1 encoding
-    let nx: u64 = run.tier.pick(512, 65536);
+    let nx: u64 = run.tier.pick(512, 1 << 20);
     run.grid(
         Spec { name: "c14.G1.from_compressed.every-small-x", n: nx, classes: &["carries-a-point", "no-point"], required: &["carries-a-point", "no-point"] },
         |i| {
@@ -217,12 +228,13 @@ pub fn g2_cleared_case(i: usize) -> Result<u32, Bad> {
 pub fn meta(run: &Run) -> Meta {
     Meta {
         rule: "grid: Fq::sqrt on a, a^2, 2a^2 (non-residue), -a^2 for every a of FP(q); Fq2::sqrt on x, x^2, nu*x^2 for every x of FQ2 and on \
+               EVERY a + b u with a, b below the bound and on \
                every (a,0), (0,a) with a and -a from the axis alphabet (residues and non-residues on both sides of q/2, all four classes \
                required non-empty); G1::from_compressed on EVERY x below the bound with both prefixes; compressed encodings of d*G. \
                Oracle: Euler's criterion / norm criterion; Some(s) must square back. Inputs are de-duplicated."
             .into(),
         engine: "sm9mc-grid".into(),
-        bounds: json!({"every_x_below": run.tier.pick(512, 65536)}),
+        bounds: json!({"every_x_below": run.tier.pick(512, 1 << 20), "every_fq2_component_below": run.tier.pick(48, 384)}),
         assumptions: vec!["which of the two roots is returned is not constrained".into()],
     }
 }
